@@ -12,6 +12,8 @@ RULE = ("(0) the inputs of the fixed findings first (21 leading comment/blank li
         "sweep over (r,c,d) x layouts plus random documents; on each the oracle reads with engine='numpy' and engine='normal' and "
         "demands equal curves (names, kinds, bit-identical values, NaN positions), equal header sections and cell (i,j) = float(token); "
         "each engine separately is compared with the Lean model including the engine trace (which engine ran, whether numpy raised); "
+        "(a') wide documents (20..700 columns, declared curves != columns) and TAB-delimited documents (DLM TAB declared; tab runs, tab/blank "
+        "padding, tab-only blank lines): same oracle; the TAB documents are outside the theorems' PlainData (context for the correspondence); "
         "(b) context: junk documents (text cells, dates, run-on numbers, quotes, commas, DLM TAB/COMMA, WRAP YES, ragged rows, empty "
         "sections) x engines x null policies vs the model; (c) unit level: read substitutions, the three splitters and str.split on random "
         "strings, the sniffer on random sections. non-trivial = the document has a blank/comment line, a following section, CRLF, no "
@@ -73,7 +75,9 @@ def oracle(run, text, case, cells=None):
     return a, b
 
 
-def check_plain(run, doc, tag):
+def check_plain(run, doc, tag, theorem_domain=True):
+    """`theorem_domain=False`: the document is inside the property's quantifier (the oracle applies in full) but outside the
+    hypothesis `PlainData` of the theorems (a disagreement with the model is then a context disagreement)"""
     from lasio import reader
     text = doc["text"]
     for row in doc["cells"]:
@@ -88,7 +92,8 @@ def check_plain(run, doc, tag):
                    "crlf" if "\r" in text else "lf", "nl" if text.endswith("\n") else "no-final-nl"])
     a, b = oracle(run, text, case, cells=doc["cells"])
     for eng, r in (("numpy", a), ("normal", b)):
-        m = dd.compare(run, "plain/" + eng, text, {"engine": eng}, r, True, case=dict(case, engine=eng))
+        m = dd.compare(run, ("plain/" if theorem_domain else "plain-tab/") + eng, text, {"engine": eng}, r, theorem_domain,
+                       case=dict(case, engine=eng))
         if m is not None and m["trace"] is not None and eng == "numpy":
             run.dist["numpy-path" if m["trace"] == ["numpy"] else "numpy-fallback"] += 1
 
@@ -204,6 +209,16 @@ def run(run):
     for _ in range(run.budget(40, 300)):
         doc = dd.plain_doc(run.rng, r=run.rng.randint(20, 45))
         check_plain(run, doc, "long")
+    # wide rows: many columns, long physical lines (hundreds to thousands of characters), declared curves != columns
+    for _ in range(run.budget(30, 300)):
+        c = run.rng.choice([20, 33, 60, 120])
+        doc = dd.plain_doc(run.rng, c=c, r=run.rng.randint(1, 4), d=run.rng.choice([0, 3, c - 1, c, c + 2]))
+        check_plain(run, doc, "wide")
+    for c in (400, 700):
+        check_plain(run, dd.plain_doc(run.rng, c=c, r=2, d=run.rng.choice([2, c])), "very-wide")
+    # TAB-delimited documents (DLM TAB declared): in the property's domain, outside the theorems' PlainData
+    for _ in range(run.budget(400, 5000)):
+        check_plain(run, dd.tab_doc(run.rng), "tab-delimited", theorem_domain=False)
     # (b) context
     for _ in range(run.budget(800, 8000)):
         doc = dd.junk_doc(run.rng)
@@ -217,13 +232,53 @@ def run(run):
     unit_streams(run)
 
 
+SEARCH_CONTEXT = True      # `search` filters by `property_domain`, so it may be given context disagreements
+
+
+def property_domain(text):
+    """is the document inside C02's quantifier: one unwrapped data section whose lines are blank, '#' comments, or the same number
+    of plain decimal numbers separated by the declared delimiter (SPACE: blanks/tabs; TAB: tabs, blanks allowed around a cell)?"""
+    from lasio import reader
+    st = dd.real_read(text, engine="normal")["steer"]
+    if st is None or len(st["windows"]) != 1 or st["las3"]:
+        return False
+    if st["wrap_declared"] and str(st["wrapped"]) == "YES":
+        return False
+    dlm = str(st["dlm"])
+    first, last = st["windows"][0]
+    rows, width = 0, None
+    for l in dd.split_lines(text)[first + 1:last + 1]:
+        s = l.strip()
+        if s == "" or s.startswith("#"):
+            continue
+        if dlm == "SPACE":
+            cells = s.split()
+        elif dlm == "TAB":
+            cells = [c.strip() for c in s.split("\t") if c.strip() != ""]
+        else:
+            return False
+        if not cells or not all(reader.numeric_literal_regex.fullmatch(c) for c in cells):
+            return False
+        if width is not None and width != len(cells):
+            return False
+        rows, width = rows + 1, len(cells)
+    return rows >= 1
+
+
 def search(run, disagreements):
-    for d in disagreements[:100]:
+    for d in disagreements[:200]:
         c = d["case"]
         if isinstance(c, dict) and "text" in c:
-            oracle(run, c["text"], c)
-    for _ in range(run.budget(20000, 200000)):
-        doc = dd.plain_doc(run.rng)
+            try:
+                ok = property_domain(c["text"])
+            except Exception:
+                ok = False
+            if ok:
+                oracle(run, c["text"], c)
+    if run.failures:
+        return
+    for i in range(run.budget(20000, 200000)):
+        doc = dd.tab_doc(run.rng) if i % 4 == 3 else dd.plain_doc(run.rng)
         oracle(run, doc["text"], {"text": doc["text"], "d": doc["d"], "c": doc["c"], "r": doc["r"]}, cells=doc["cells"])
         if run.failures:
             return
